@@ -51,13 +51,16 @@ def run_case(case, sched_seed=None, choose=None, simultaneous=0.2):
             elif curfull is not None:
                 curfull.append(e)
         for si, seg in enumerate(sched_cases.segments(trace, ctl)):
-            s = dict(cfg=seg["cfg"], labels=None, end=None, unparsable=None, monitor=[])
+            dcfg, diffs = sched_cases.declared_cfg(case, seg["cfg"])
+            s = dict(cfg=dcfg, labels=None, end=None, unparsable=None, monitor=[], declared_diffs=diffs)
             try:
                 labels, end = sched_cases.to_labels(seg["evs"])
                 s["labels"] = labels
                 s["end"] = end
-                s["monitor"] = sched_cases.monitors(seg["cfg"], full[si] if si < len(full) else [], labels, end)
+                s["monitor"] = sched_cases.monitors(dcfg, full[si] if si < len(full) else [], labels, end)
+                s["monitor"] += [(p_, m_) for ps_, m_ in diffs for p_ in ps_]
             except sched_cases.Unparsable as u:
+                s["monitor"] += [(p_, m_) for ps_, m_ in diffs for p_ in ps_]
                 s["unparsable"] = str(u)
                 s["raw"] = jsonable(seg["evs"])
             run["segs"].append(s)
